@@ -1,5 +1,7 @@
 //! Verification harness for Layout21: `harness <Cxx> [--tier quick|thorough] [--replay FILE]`
 mod engine;
+#[global_allocator]
+static ALLOC: engine::alloc::Counting = engine::alloc::Counting;
 mod gen;
 mod props;
 mod refmodel;
@@ -23,6 +25,7 @@ fn main() {
         _ => Tier::Quick,
     };
     let mut replay: Option<String> = None;
+    let mut inner = false;
     let mut i = 1;
     while i < args.len() {
         match args[i].as_str() {
@@ -30,6 +33,7 @@ fn main() {
                 i += 1;
                 tier = if args.get(i).map(|s| s.as_str()) == Some("thorough") { Tier::Thorough } else { Tier::Quick };
             }
+            "--inner" => inner = true,
             "--replay" => {
                 i += 1;
                 replay = args.get(i).cloned();
@@ -42,6 +46,14 @@ fn main() {
         i += 1;
     }
     let seed: u64 = std::env::var("VERIF_SEED").ok().and_then(|s| s.trim().parse::<i64>().ok()).map(|v| v as u64).unwrap_or(0);
+    if !inner && replay.is_none() && std::env::var("VERIF_NO_SUPERVISOR").is_err() {
+        if props::find(&prop).is_none() {
+            engine::emit(&format!("unknown property {}", prop));
+            std::process::exit(2);
+        }
+        let code = engine::journal::supervise(&prop, &args, tier.name(), seed);
+        std::process::exit(code);
+    }
     engine::capture_stdout();
     let def = match props::find(&prop) {
         Some(d) => d,
@@ -58,20 +70,45 @@ fn main() {
                 std::process::exit(2);
             }
         };
-        let f = match (def.case)(&rp.sub) {
-            Some(f) => f,
-            None => {
-                engine::emit(&format!("unknown sub-check {} for {}", rp.sub, prop));
-                std::process::exit(2);
-            }
-        };
-        if let Some(s) = (def.render)(&rp.sub, &rp.choices) {
+        if let Some(sd) = rp.seed {
+            // fixed base inputs are derived from the seed the failing run used
+            std::env::set_var("VERIF_SEED", sd.to_string());
+        }
+        if (def.case)(&rp.sub).is_none() {
+            engine::emit(&format!("unknown sub-check {} for {}", rp.sub, prop));
+            std::process::exit(2);
+        }
+        if let Some(s) = engine::guard(|| (def.render)(&rp.sub, &rp.choices)).ok().flatten() {
             engine::emit(&format!("  case: {}", s));
         }
-        let code = engine::replay_case(&prop, &rp, &*f, &path);
+        // The bare oracle, without proptest, in a child process (a crash must not take the report with it)
+        let out = engine::child::run_batch(&prop, &rp.sub, &[rp.choices.clone()], 60, (engine::journal::WORKER_STACK / 1024) as u64);
         engine::child::cleanup_scratch();
+        use engine::child::ChildOutcome as O;
+        let code = match out.first() {
+            Some(O::Ok) => {
+                engine::emit(&format!("REPLAY-OK property={} sub={}", prop, rp.sub));
+                0
+            }
+            Some(O::Watchdog) | None => {
+                engine::emit(&format!("INCONCLUSIVE property={} replay did not finish", prop));
+                2
+            }
+            Some(other) => {
+                let m = match other {
+                    O::Fail(m) => m.clone(),
+                    O::Died(m) => format!("the call did not return: process {}", m),
+                    O::CpuLimit => "the call did not return within 60 s of CPU time".to_string(),
+                    _ => String::new(),
+                };
+                engine::emit(&format!("  failure: {}", m));
+                engine::emit(&format!("VIOLATION property={} replay={}", prop, path));
+                1
+            }
+        };
         std::process::exit(code);
     }
+    engine::journal::start_watchdog();
     let mut run = Run::new(&prop, def.level, tier, seed);
     (def.run)(&mut run);
     let code = run.finish(&|s, c| (def.render)(s, c));
